@@ -85,6 +85,34 @@ Theorem c02_burn_exact_close : forall c s f a e id ie s', cfg_ok c -> f <> VAULT
 Proof. exact close_burn. Qed.
 Print Assumptions c02_burn_exact_close.
 
+(* interest first, to the collector, out of existing supply; only the excess retires principal and
+   exactly that much is burnt; no other denom's supply moves *)
+Theorem c02_fees_not_minted_repay : forall c s f a e id amt ie s', cfg_ok c -> f <> VAULT -> f <> COLL -> Inv01 c s ->
+  run c s (Repay f a e id amt ie) = Ok s' ->
+  exists v v' ep, find_v (vaults s) id = Some v /\ find_v (vaults s') id = Some v' /\ get_ep c e = Some ep /\ 0 <= ie /\
+    let interest := v_int v + ie in
+    let burnt := Z.max 0 (amt - interest) in
+    sup s (ep_out ep) - sup s' (ep_out ep) = burnt /\
+    v_out v' = v_out v - burnt /\ v_int v' = interest - (amt - burnt) /\
+    bal s' COLL (ep_out ep) - bal s COLL (ep_out ep) = amt - burnt /\
+    bal s f (ep_out ep) - bal s' f (ep_out ep) = amt /\
+    (forall x, x <> ep_out ep -> sup s' x = sup s x).
+Proof. exact repay_law. Qed.
+Print Assumptions c02_fees_not_minted_repay.
+
+(* GetAmountOfOtherToken at rate 1:1 (used by the stable-mint handlers): Quo rounded half-even at
+   10^-18, then TruncateInt of the product; both roundings explicit *)
+Theorem c02_other_token_spec : forall dec1 amt dec2 t, other_token dec1 amt dec2 = Some t -> 0 < dec1 -> 0 <= amt -> 0 <= dec2 ->
+  let q := dquo (amt * P18) (dec1 * P18) in
+  t = Z.quot (q * dec2) P18 /\
+  t * dec1 * P18 <= (amt * P18 + dec1) * dec2 /\ (amt * P18 - dec1) * dec2 < (t + 1) * dec1 * P18.
+Proof. exact other_token_spec. Qed.
+Print Assumptions c02_other_token_spec.
+Example c02_other_token_examples :
+  other_token 1000000 2000000 P18 = Some (2 * P18) /\ other_token P18 (2 * P18 + 999999999999) 1000000 = Some 2000000 /\
+  other_token 100000000 123456789 1000000 = Some 1234567.
+Proof. vm_compute. repeat split; reflexivity. Qed.
+
 (* non-vacuity: hypotheses met by the example; supply of the stable debt denom 4 equals the
    stable-mint principal; every successful step of the example satisfies the step predicate *)
 Example c02_example_hyps : cfg_ok ex_cfg /\ Forall user_op ex_ops /\ Inv01 ex_cfg ex_init /\ Inv02 ex_cfg ex_sup ex_init.
